@@ -58,7 +58,7 @@ func txCases() []txCase {
 			}
 			for _, stmts := range stmtSets {
 				for _, onErr := range []string{"return", "ignore"} {
-					for _, final := range []string{"nil", "err", "panic", "panic-runtime", "panic-error", "panic-nil-error"} {
+					for _, final := range []string{"nil", "err", "err-notfound", "err-txdone", "err-canceled", "err-wrapped-notfound", "panic", "panic-runtime", "panic-error", "panic-nil-error"} {
 						panicPos := []int{0}
 						if strings.HasPrefix(final, "panic") {
 							panicPos = nil
@@ -156,6 +156,11 @@ func TestVerifTransact(t *testing.T) {
 			case "err":
 				bodyOutcome = "err"
 				return errBody
+			case "err-notfound", "err-txdone", "err-canceled", "err-wrapped-notfound":
+				// errors the package's own callers treat as benign elsewhere (breaker, cache): for a
+				// transaction they are the body's error like any other - roll back, hand it back
+				bodyOutcome = "err"
+				return txBodyErr(k.final)
 			}
 			bodyOutcome = "nil"
 			return nil
@@ -202,6 +207,9 @@ func TestVerifTransact(t *testing.T) {
 				fail("rollback count", "body returned an error: want exactly one Rollback and no Commit")
 			}
 			want := "body error"
+			if k.final != "err" && bodyOutcome == "err" {
+				want = txBodyErr(k.final).Error()
+			}
 			if bodyOutcome == "stmterr" {
 				want = "driver fault"
 				if k.ctxMode != "live" {
@@ -224,6 +232,22 @@ func TestVerifTransact(t *testing.T) {
 		}
 	}
 	c.Done()
+}
+
+var errWrappedNotFound = fmt.Errorf("lookup inside the transaction: %w", ErrNotFound)
+
+func txBodyErr(kind string) error {
+	switch kind {
+	case "err-notfound":
+		return ErrNotFound
+	case "err-txdone":
+		return sql.ErrTxDone
+	case "err-canceled":
+		return context.Canceled
+	case "err-wrapped-notfound":
+		return errWrappedNotFound
+	}
+	return errBody
 }
 
 // txPanic panics the way the body outcome says: with a string, with a value raised by the Go
